@@ -109,7 +109,7 @@ def run(R):
         for ln in ([2, 3, 5, 8, 9, 10] if quick else list(range(2, 13))):
             st = tag + S.enc_var(47, 0) + S.enc_var(ln, 1) + S.enc_var(3, 1) + b"$" + salt
             g.append(CS.crypt_op("rn", 0, base, st)); gi.append((tag.decode(), 10, "cost", "N=2^%d,r=3" % ln))
-        groups.append(g); info.append(gi)
+        for k_ in range(0, len(g), 24): groups.append(g[k_:k_ + 24]); info.append(gi[k_:k_ + 24])      # (chunks: the shards share the work; the oracle walks all ops)
     # the same for every other method with a cost parameter: neighbouring costs, same salt and phrase, must not share their hash part
     # (seeded/C03g: bsdicrypt silently running an even count as the next odd one)
     cbase = bytes(R.rng.randrange(0x21, 0x7f) for _ in range(10))
@@ -129,7 +129,7 @@ def run(R):
         g.append(CS.crypt_op("rn", 0, cbase, b"$2b$%02d$abcdefghijklmnopqrstuu" % c)); gi.append(("bcrypt", 10, "cost", "cost=%d" % c))
     for nch in (b"4", b"5", b"6", b"7"):
         g.append(CS.crypt_op("rn", 0, cbase, b"$7$" + nch + b"6..../....saltsalt")); gi.append(("scrypt", 10, "cost", "N=" + nch.decode()))
-    groups.append(g); info.append(gi)
+    for k_ in range(0, len(g), 24): groups.append(g[k_:k_ + 24]); info.append(gi[k_:k_ + 24])      # (chunks: the shards share the work; the oracle walks all ops)
     ops, il, ml = R.run_pair_sharded(groups)
     infos = [x for gi in info for x in gi]
     diffs = compare(R, ops, il, ml, CS.proj_crypt, "perturbation stream")
